@@ -1,1 +1,131 @@
-(* Proofs/Guards.v -- stub, to be filled in *)
+(* Proofs/Guards.v -- each regenerated guard fires exactly outside the specified range (C20). *)
+From Coq Require Import ZArith Bool Lia ZifyBool.
+From OV Require Import gen.GuardTable Model.Guards.
+Local Open Scope Z_scope.
+
+Ltac guard_tac g ok := intros; unfold g, ok; lia.
+
+Lemma guard_vec_add_ref_lemma : forall n1 n2 : Z, 0 <= n1 -> 0 <= n2 -> (g_vec_add_ref n1 n2 = false <-> ok_vec_add_ref n1 n2).
+Proof. guard_tac g_vec_add_ref ok_vec_add_ref. Qed.
+Lemma guard_vec_sub_ref_lemma : forall n1 n2 : Z, 0 <= n1 -> 0 <= n2 -> (g_vec_sub_ref n1 n2 = false <-> ok_vec_sub_ref n1 n2).
+Proof. guard_tac g_vec_sub_ref ok_vec_sub_ref. Qed.
+Lemma guard_vec_add_assign_lemma : forall n1 n2 : Z, 0 <= n1 -> 0 <= n2 -> (g_vec_add_assign n1 n2 = false <-> ok_vec_add_assign n1 n2).
+Proof. guard_tac g_vec_add_assign ok_vec_add_assign. Qed.
+Lemma guard_vec_sub_assign_lemma : forall n1 n2 : Z, 0 <= n1 -> 0 <= n2 -> (g_vec_sub_assign n1 n2 = false <-> ok_vec_sub_assign n1 n2).
+Proof. guard_tac g_vec_sub_assign ok_vec_sub_assign. Qed.
+Lemma guard_vec_dot_lemma : forall n1 n2 : Z, 0 <= n1 -> 0 <= n2 -> (g_vec_dot n1 n2 = false <-> ok_vec_dot n1 n2).
+Proof. guard_tac g_vec_dot ok_vec_dot. Qed.
+Lemma guard_vec_dot_f64_lemma : forall n1 n2 : Z, 0 <= n1 -> 0 <= n2 -> (g_vec_dot_f64 n1 n2 = false <-> ok_vec_dot_f64 n1 n2).
+Proof. guard_tac g_vec_dot_f64 ok_vec_dot_f64. Qed.
+Lemma guard_vec_sum_slice_lemma : forall n s e : Z, 0 <= n -> 0 <= s -> 0 <= e -> (g_vec_sum_slice n s e = false <-> ok_vec_sum_slice n s e).
+Proof. guard_tac g_vec_sum_slice ok_vec_sum_slice. Qed.
+Lemma guard_vec_product_slice_lemma : forall n s e : Z, 0 <= n -> 0 <= s -> 0 <= e -> (g_vec_product_slice n s e = false <-> ok_vec_product_slice n s e).
+Proof. guard_tac g_vec_product_slice ok_vec_product_slice. Qed.
+Lemma guard_mat_get_row_lemma : forall r c row : Z, 0 <= r -> 0 <= c -> 0 <= row -> (g_mat_get_row r c row = false <-> ok_mat_get_row r c row).
+Proof. guard_tac g_mat_get_row ok_mat_get_row. Qed.
+Lemma guard_mat_get_col_lemma : forall r c col : Z, 0 <= r -> 0 <= c -> 0 <= col -> (g_mat_get_col r c col = false <-> ok_mat_get_col r c col).
+Proof. guard_tac g_mat_get_col ok_mat_get_col. Qed.
+Lemma guard_mat_set_row_lemma : forall r c row vl : Z, 0 <= r -> 0 <= c -> 0 <= row -> 0 <= vl -> (g_mat_set_row r c row vl = false <-> ok_mat_set_row r c row vl).
+Proof. guard_tac g_mat_set_row ok_mat_set_row. Qed.
+Lemma guard_mat_set_col_lemma : forall r c col vl : Z, 0 <= r -> 0 <= c -> 0 <= col -> 0 <= vl -> (g_mat_set_col r c col vl = false <-> ok_mat_set_col r c col vl).
+Proof. guard_tac g_mat_set_col ok_mat_set_col. Qed.
+Lemma guard_mat_delete_row_lemma : forall r c row : Z, 0 <= r -> 0 <= c -> 0 <= row -> (g_mat_delete_row r c row = false <-> ok_mat_delete_row r c row).
+Proof. guard_tac g_mat_delete_row ok_mat_delete_row. Qed.
+Lemma guard_mat_multiply_lemma : forall r c vl : Z, 0 <= r -> 0 <= c -> 0 <= vl -> (g_mat_multiply r c vl = false <-> ok_mat_multiply r c vl).
+Proof. guard_tac g_mat_multiply ok_mat_multiply. Qed.
+Lemma guard_mat_swap_rows_lemma : forall r c r1 r2 : Z, 0 <= r -> 0 <= c -> 0 <= r1 -> 0 <= r2 -> (g_mat_swap_rows r c r1 r2 = false <-> ok_mat_swap_rows r c r1 r2).
+Proof. guard_tac g_mat_swap_rows ok_mat_swap_rows. Qed.
+Lemma guard_mat_fill_row_lemma : forall r c row : Z, 0 <= r -> 0 <= c -> 0 <= row -> (g_mat_fill_row r c row = false <-> ok_mat_fill_row r c row).
+Proof. guard_tac g_mat_fill_row ok_mat_fill_row. Qed.
+Lemma guard_mat_fill_col_lemma : forall r c col : Z, 0 <= r -> 0 <= c -> 0 <= col -> (g_mat_fill_col r c col = false <-> ok_mat_fill_col r c col).
+Proof. guard_tac g_mat_fill_col ok_mat_fill_col. Qed.
+Lemma guard_mat_solve_basic_lemma : forall r c bl : Z, 0 <= r -> 0 <= c -> 0 <= bl -> (g_mat_solve_basic r c bl = false <-> ok_mat_solve_basic r c bl).
+Proof. guard_tac g_mat_solve_basic ok_mat_solve_basic. Qed.
+Lemma guard_mat_lu_lemma : forall r c : Z, 0 <= r -> 0 <= c -> (g_mat_lu r c = false <-> ok_mat_lu r c).
+Proof. guard_tac g_mat_lu ok_mat_lu. Qed.
+Lemma guard_mat_solve_lu_lemma : forall r c bl : Z, 0 <= r -> 0 <= c -> 0 <= bl -> (g_mat_solve_lu r c bl = false <-> ok_mat_solve_lu r c bl).
+Proof. guard_tac g_mat_solve_lu ok_mat_solve_lu. Qed.
+Lemma guard_mat_inverse_lemma : forall r c : Z, 0 <= r -> 0 <= c -> (g_mat_inverse r c = false <-> ok_mat_inverse r c).
+Proof. guard_tac g_mat_inverse ok_mat_inverse. Qed.
+Lemma guard_mat_determinant_lemma : forall r c : Z, 0 <= r -> 0 <= c -> (g_mat_determinant r c = false <-> ok_mat_determinant r c).
+Proof. guard_tac g_mat_determinant ok_mat_determinant. Qed.
+Lemma guard_mat_add_ref_lemma : forall r c r2 c2 : Z, 0 <= r -> 0 <= c -> 0 <= r2 -> 0 <= c2 -> (g_mat_add_ref r c r2 c2 = false <-> ok_mat_add_ref r c r2 c2).
+Proof. guard_tac g_mat_add_ref ok_mat_add_ref. Qed.
+Lemma guard_mat_sub_ref_lemma : forall r c r2 c2 : Z, 0 <= r -> 0 <= c -> 0 <= r2 -> 0 <= c2 -> (g_mat_sub_ref r c r2 c2 = false <-> ok_mat_sub_ref r c r2 c2).
+Proof. guard_tac g_mat_sub_ref ok_mat_sub_ref. Qed.
+Lemma guard_mat_add_assign_ref_lemma : forall r c r2 c2 : Z, 0 <= r -> 0 <= c -> 0 <= r2 -> 0 <= c2 -> (g_mat_add_assign_ref r c r2 c2 = false <-> ok_mat_add_assign_ref r c r2 c2).
+Proof. guard_tac g_mat_add_assign_ref ok_mat_add_assign_ref. Qed.
+Lemma guard_mat_sub_assign_ref_lemma : forall r c r2 c2 : Z, 0 <= r -> 0 <= c -> 0 <= r2 -> 0 <= c2 -> (g_mat_sub_assign_ref r c r2 c2 = false <-> ok_mat_sub_assign_ref r c r2 c2).
+Proof. guard_tac g_mat_sub_assign_ref ok_mat_sub_assign_ref. Qed.
+Lemma guard_mat_mul_ref_lemma : forall r c r2 c2 : Z, 0 <= r -> 0 <= c -> 0 <= r2 -> 0 <= c2 -> (g_mat_mul_ref r c r2 c2 = false <-> ok_mat_mul_ref r c r2 c2).
+Proof. guard_tac g_mat_mul_ref ok_mat_mul_ref. Qed.
+Lemma guard_band_fill_band_lemma : forall n m1 m2 band : Z, 0 <= n -> 0 <= m1 -> 0 <= m2 -> (g_band_fill_band n m1 m2 band = false <-> ok_band_fill_band n m1 m2 band).
+Proof. guard_tac g_band_fill_band ok_band_fill_band. Qed.
+Lemma guard_band_solve_lemma : forall n m1 m2 bl : Z, 0 <= n -> 0 <= m1 -> 0 <= m2 -> 0 <= bl -> (g_band_solve n m1 m2 bl = false <-> ok_band_solve n m1 m2 bl).
+Proof. guard_tac g_band_solve ok_band_solve. Qed.
+Lemma guard_band_index_lemma : forall n m1 m2 i j : Z, 0 <= n -> 0 <= m1 -> 0 <= m2 -> 0 <= i -> 0 <= j -> (g_band_index n m1 m2 i j = false <-> ok_band_index n m1 m2 i j).
+Proof. guard_tac g_band_index ok_band_index. Qed.
+Lemma guard_band_index_mut_lemma : forall n m1 m2 i j : Z, 0 <= n -> 0 <= m1 -> 0 <= m2 -> 0 <= i -> 0 <= j -> (g_band_index_mut n m1 m2 i j = false <-> ok_band_index_mut n m1 m2 i j).
+Proof. guard_tac g_band_index_mut ok_band_index_mut. Qed.
+Lemma guard_band_add_ref_lemma : forall n m1 m2 n2 p1 p2 : Z, 0 <= n -> 0 <= m1 -> 0 <= m2 -> 0 <= n2 -> 0 <= p1 -> 0 <= p2 -> (g_band_add_ref n m1 m2 n2 p1 p2 = false <-> ok_band_add_ref n m1 m2 n2 p1 p2).
+Proof. guard_tac g_band_add_ref ok_band_add_ref. Qed.
+Lemma guard_band_sub_ref_lemma : forall n m1 m2 n2 p1 p2 : Z, 0 <= n -> 0 <= m1 -> 0 <= m2 -> 0 <= n2 -> 0 <= p1 -> 0 <= p2 -> (g_band_sub_ref n m1 m2 n2 p1 p2 = false <-> ok_band_sub_ref n m1 m2 n2 p1 p2).
+Proof. guard_tac g_band_sub_ref ok_band_sub_ref. Qed.
+Lemma guard_band_add_assign_ref_lemma : forall n m1 m2 n2 p1 p2 : Z, 0 <= n -> 0 <= m1 -> 0 <= m2 -> 0 <= n2 -> 0 <= p1 -> 0 <= p2 -> (g_band_add_assign_ref n m1 m2 n2 p1 p2 = false <-> ok_band_add_assign_ref n m1 m2 n2 p1 p2).
+Proof. guard_tac g_band_add_assign_ref ok_band_add_assign_ref. Qed.
+Lemma guard_band_sub_assign_ref_lemma : forall n m1 m2 n2 p1 p2 : Z, 0 <= n -> 0 <= m1 -> 0 <= m2 -> 0 <= n2 -> 0 <= p1 -> 0 <= p2 -> (g_band_sub_assign_ref n m1 m2 n2 p1 p2 = false <-> ok_band_sub_assign_ref n m1 m2 n2 p1 p2).
+Proof. guard_tac g_band_sub_assign_ref ok_band_sub_assign_ref. Qed.
+Lemma guard_band_mul_vec_lemma : forall n m1 m2 vl : Z, 0 <= n -> 0 <= m1 -> 0 <= m2 -> 0 <= vl -> (g_band_mul_vec n m1 m2 vl = false <-> ok_band_mul_vec n m1 m2 vl).
+Proof. guard_tac g_band_mul_vec ok_band_mul_vec. Qed.
+Lemma guard_tri_with_vectors_lemma : forall ns nm nu : Z, 0 <= ns -> 0 <= nm -> 0 <= nu -> (g_tri_with_vectors ns nm nu = false <-> ok_tri_with_vectors ns nm nu).
+Proof. guard_tac g_tri_with_vectors ok_tri_with_vectors. Qed.
+Lemma guard_tri_with_vecs_lemma : forall ns nm nu : Z, 0 <= ns -> 0 <= nm -> 0 <= nu -> (g_tri_with_vecs ns nm nu = false <-> ok_tri_with_vecs ns nm nu).
+Proof. guard_tac g_tri_with_vecs ok_tri_with_vecs. Qed.
+Lemma guard_tri_convert_lemma : forall n : Z, 0 <= n -> (g_tri_convert n = false <-> ok_tri_convert n).
+Proof. guard_tac g_tri_convert ok_tri_convert. Qed.
+Lemma guard_tri_solve_lemma : forall n rl : Z, 0 <= n -> 0 <= rl -> (g_tri_solve n rl = false <-> ok_tri_solve n rl).
+Proof. guard_tac g_tri_solve ok_tri_solve. Qed.
+Lemma guard_tri_index_lemma : forall n i j : Z, 0 <= n -> 0 <= i -> 0 <= j -> (g_tri_index n i j = false <-> ok_tri_index n i j).
+Proof. guard_tac g_tri_index ok_tri_index. Qed.
+Lemma guard_tri_index_mut_lemma : forall n i j : Z, 0 <= n -> 0 <= i -> 0 <= j -> (g_tri_index_mut n i j = false <-> ok_tri_index_mut n i j).
+Proof. guard_tac g_tri_index_mut ok_tri_index_mut. Qed.
+Lemma guard_tri_add_lemma : forall n1 n2 : Z, 0 <= n1 -> 0 <= n2 -> (g_tri_add n1 n2 = false <-> ok_tri_add n1 n2).
+Proof. guard_tac g_tri_add ok_tri_add. Qed.
+Lemma guard_tri_sub_lemma : forall n1 n2 : Z, 0 <= n1 -> 0 <= n2 -> (g_tri_sub n1 n2 = false <-> ok_tri_sub n1 n2).
+Proof. guard_tac g_tri_sub ok_tri_sub. Qed.
+Lemma guard_tri_mul_vec_lemma : forall n vl : Z, 0 <= n -> 0 <= vl -> (g_tri_mul_vec n vl = false <-> ok_tri_mul_vec n vl).
+Proof. guard_tac g_tri_mul_vec ok_tri_mul_vec. Qed.
+Lemma guard_sp_from_triplets_lemma : forall r c row col : Z, 0 <= r -> 0 <= c -> 0 <= row -> 0 <= col -> (g_sp_from_triplets r c row col = false <-> ok_sp_from_triplets r c row col).
+Proof. guard_tac g_sp_from_triplets ok_sp_from_triplets. Qed.
+Lemma guard_sp_get_lemma : forall r c row col : Z, 0 <= r -> 0 <= c -> 0 <= row -> 0 <= col -> (g_sp_get r c row col = false <-> ok_sp_get r c row col).
+Proof. guard_tac g_sp_get ok_sp_get. Qed.
+Lemma guard_sp_insert_lemma : forall r c row col : Z, 0 <= r -> 0 <= c -> 0 <= row -> 0 <= col -> (g_sp_insert r c row col = false <-> ok_sp_insert r c row col).
+Proof. guard_tac g_sp_insert ok_sp_insert. Qed.
+Lemma guard_sp_multiply_lemma : forall r c xl : Z, 0 <= r -> 0 <= c -> 0 <= xl -> (g_sp_multiply r c xl = false <-> ok_sp_multiply r c xl).
+Proof. guard_tac g_sp_multiply ok_sp_multiply. Qed.
+Lemma guard_sp_transpose_multiply_lemma : forall r c xl : Z, 0 <= r -> 0 <= c -> 0 <= xl -> (g_sp_transpose_multiply r c xl = false <-> ok_sp_transpose_multiply r c xl).
+Proof. guard_tac g_sp_transpose_multiply ok_sp_transpose_multiply. Qed.
+Lemma guard_sp_solve_bicgstab_lemma : forall r c bl xl : Z, 0 <= r -> 0 <= c -> 0 <= bl -> 0 <= xl -> (g_sp_solve_bicgstab r c bl xl = false <-> ok_sp_solve_bicgstab r c bl xl).
+Proof. guard_tac g_sp_solve_bicgstab ok_sp_solve_bicgstab. Qed.
+Lemma guard_sp_solve_cg_lemma : forall r c bl xl : Z, 0 <= r -> 0 <= c -> 0 <= bl -> 0 <= xl -> (g_sp_solve_cg r c bl xl = false <-> ok_sp_solve_cg r c bl xl).
+Proof. guard_tac g_sp_solve_cg ok_sp_solve_cg. Qed.
+Lemma guard_sp_solve_qmr_lemma : forall r c bl xl : Z, 0 <= r -> 0 <= c -> 0 <= bl -> 0 <= xl -> (g_sp_solve_qmr r c bl xl = false <-> ok_sp_solve_qmr r c bl xl).
+Proof. guard_tac g_sp_solve_qmr ok_sp_solve_qmr. Qed.
+Lemma guard_sp_solve_bicg_lemma : forall r c bl xl itol : Z, 0 <= r -> 0 <= c -> 0 <= bl -> 0 <= xl -> 0 <= itol -> (g_sp_solve_bicg r c bl xl itol = false <-> ok_sp_solve_bicg r c bl xl itol).
+Proof. guard_tac g_sp_solve_bicg ok_sp_solve_bicg. Qed.
+Lemma guard_mesh1_set_nodes_vars_lemma : forall nn nv node vl : Z, 0 <= nn -> 0 <= nv -> 0 <= node -> 0 <= vl -> (g_mesh1_set_nodes_vars nn nv node vl = false <-> ok_mesh1_set_nodes_vars nn nv node vl).
+Proof. guard_tac g_mesh1_set_nodes_vars ok_mesh1_set_nodes_vars. Qed.
+Lemma guard_mesh1_get_nodes_vars_lemma : forall nn nv node : Z, 0 <= nn -> 0 <= nv -> 0 <= node -> (g_mesh1_get_nodes_vars nn nv node = false <-> ok_mesh1_get_nodes_vars nn nv node).
+Proof. guard_tac g_mesh1_get_nodes_vars ok_mesh1_get_nodes_vars. Qed.
+Lemma guard_mesh2_set_nodes_vars_lemma : forall nx ny nv i j vl : Z, 0 <= nx -> 0 <= ny -> 0 <= nv -> 0 <= i -> 0 <= j -> 0 <= vl -> (g_mesh2_set_nodes_vars nx ny nv i j vl = false <-> ok_mesh2_set_nodes_vars nx ny nv i j vl).
+Proof. guard_tac g_mesh2_set_nodes_vars ok_mesh2_set_nodes_vars. Qed.
+Lemma guard_mesh2_get_nodes_vars_lemma : forall nx ny i j : Z, 0 <= nx -> 0 <= ny -> 0 <= i -> 0 <= j -> (g_mesh2_get_nodes_vars nx ny i j = false <-> ok_mesh2_get_nodes_vars nx ny i j).
+Proof. guard_tac g_mesh2_get_nodes_vars ok_mesh2_get_nodes_vars. Qed.
+Lemma guard_mesh2_var_as_matrix_lemma : forall nx ny nv var : Z, 0 <= nx -> 0 <= ny -> 0 <= nv -> 0 <= var -> (g_mesh2_var_as_matrix nx ny nv var = false <-> ok_mesh2_var_as_matrix nx ny nv var).
+Proof. guard_tac g_mesh2_var_as_matrix ok_mesh2_var_as_matrix. Qed.
+Lemma guard_poly_index_lemma : forall len i : Z, 0 <= len -> 0 <= i -> (g_poly_index len i = false <-> ok_poly_index len i).
+Proof. guard_tac g_poly_index ok_poly_index. Qed.
+Lemma guard_poly_index_mut_lemma : forall len i : Z, 0 <= len -> 0 <= i -> (g_poly_index_mut len i = false <-> ok_poly_index_mut len i).
+Proof. guard_tac g_poly_index_mut ok_poly_index_mut. Qed.
+Lemma guard_poly_roots_degree_lemma : forall len : Z, 0 <= len -> 1 <= len -> (g_poly_roots_degree len = false <-> ok_poly_roots_degree len).
+Proof. guard_tac g_poly_roots_degree ok_poly_roots_degree. Qed.
